@@ -40,7 +40,7 @@ CLAIMED["C09"] = ("§3 C09",
 
 CLAIMED["C02"] = ("§3 C02",
     "parser rules of C09 + exhaustiveness of default-panic dispatchers over internal/core/adt interfaces + acquire/release pairing automata for evaluation frames + map-iteration order-leak classification and nondeterminism-source scan",
-    "Decides the parser bailout/recursion clauses (shared with C09), that every default-panic type-switch dispatcher of the evaluator, exporter, walker, dependency analysis and subsumption covers every implementor of the switched adt interface (or excepts it with a reachability reason), that PushState/PopState, PushArc/PopArc, pushOverlay/popOverlay, markDepth/unmarkDepth and incDepth/decDepth are balanced on every non-panicking path, and that no map-iteration order, global random source, wall-clock time or pointer text reaches output in the pipeline packages. It does not decide nil dereferences, index errors, evaluator recursion depth, or time/memory bounds.",
+    "Decides the parser bailout/recursion clauses (shared with C09), that every default-panic type-switch dispatcher of the evaluator, exporter, walker, dependency analysis and subsumption covers every implementor of the switched adt interface (or excepts it with a reachability reason), that PushState/PopState, PushArc/PopArc, pushOverlay/popOverlay, markDepth/unmarkDepth and incDepth/decDepth are balanced on every non-panicking path, that no map-iteration order, global random source, wall-clock time or pointer text reaches output in the pipeline packages, and that the Go slice expressions of SliceExpr.evaluate are dominated by the lo>hi rejection and the length test of a user-supplied upper bound. It does not decide nil dereferences, other index errors, evaluator recursion depth, or time/memory bounds.",
     "value-dependent crashes are out of reach; comparator completeness of sorts is not decided")
 
 CLAIMED["C07"] = ("§3 C07",
